@@ -117,7 +117,26 @@ def shut (c impl : List String) : Option Verdict := do
     else ""
   let sortedImpl := (markEnds evs).mergeSort evLe
   let nt := model.any fun e => e.kind == "E" && decide (e.t > cs.tc) && e.idx < (dueSends cs.adv).length
+  let exact := status == "nil" && sortedImpl == model
+  -- K-2 (lost wake-up in mdlayher/schedgroup): a scheduled transmission may begin late, at one
+  -- of the scheduler's later wake-up instants (or not at all when the stop comes first).  Such a
+  -- run is one of the model's allowed outcomes iff, per destination, the observed begins are the
+  -- predicted ones in order, each on time or late at a wake-up instant, every completion comes
+  -- its scripted latency after its begin, and the oracle above holds.
+  let implB := evs.filter fun e => e.kind == "B" && e.lifetime != 0
+  let modelB := model.filter fun e => e.kind == "B" && e.lifetime != 0
+  let wake := (allRequests cs.adv).map (·.1) ++ implB.map (·.t) ++ [cs.tc]
+  let dsts := (modelB ++ implB).map (fun e => (e.mc, e.host)) |>.eraseDups
+  let lateDst := fun (m i : List Time) =>
+    decide (i.length ≤ m.length) && (m.zip i).all fun (t, t') => t' == t || (decide (t < t') && wake.contains t')
+  let lateBegins := dsts.all fun d =>
+    lateDst ((modelB.filter fun e => (e.mc, e.host) == d).map (·.t)) ((implB.filter fun e => (e.mc, e.host) == d).map (·.t))
+  let endsOk := evs.all fun e =>
+    e.kind != "E" || (match evs.find? (fun b => b.kind == "B" && b.idx == e.idx) with
+      | some b => e.t == b.t + latOf cs.lat e.idx
+      | none => false)
+  let late := !exact && status == "nil" && ok && lateBegins && endsOk
   pure { model := modelStr, oracle := ok, nontrivial := nt, note := note,
-         agreeOverride := some (status == "nil" && sortedImpl == model) }
+         agreeOverride := some (exact || late) }
 
 end Driver.C08
